@@ -134,9 +134,16 @@ NE(p) == SelectSeq(p.D, LAMBDA x : ~QEmpty(x.V))
 NonTriv(H) == SelectSeq(H, LAMBDA h : \E i \in 2..Len(h.v) : h.v[i] # 0)        \* (the polar construction may return the positivity row)
 \* certificate of the hull: its affine dimension, and (number of independent equalities) + (number of facets); the polar construction
 \* returns a spanning set of the equalities, so they are counted through the dimension
+\* (for a set that is not full-dimensional the polar construction can return several representatives of one facet, differing by multiples
+\*  of the equalities: facets are therefore counted as distinct sets of saturating generators)
 HullCert(p, m) == LET V == AllV(p)  ad == AffDim(V, m)
-                      facets == SelectSeq(NonTriv(HOfClosed(V, m)), LAMBDA h : h.k # "eq")
-                  IN [ad |-> ad, nc |-> ((m - 1) - ad) + Len(facets)]
+                      rows == SelectSeq(NonTriv(HOfClosed(V, m)), LAMBDA h : h.k # "eq")
+                      hv(g) == IF g.k \in {"point", "cpoint"} THEN g.v ELSE [g.v EXCEPT ![1] = 0]
+                      sat(h) == {i \in 1..Len(V) : Dot(h.v, hv(V[i])) = 0}
+                      pts == {i \in 1..Len(V) : V[i].k \in {"point", "cpoint"}}
+                      \* (a row saturated by rays only is the positivity row modulo the equalities: the face at infinity, not a facet)
+                      facets == {S \in ({sat(rows[i]) : i \in 1..Len(rows)} \ {1..Len(V)}) : S \cap pts # {}}
+                  IN [ad |-> ad, nc |-> ((m - 1) - ad) + Cardinality(facets)]
 Certs(p, m) == LET Dn == NE(p) IN [i \in 1..Len(Dn) |-> HCert(Dn[i].H, Dn[i].V, m)]
 \* multiset order: sort both by badness (worst first) and compare lexicographically; a proper prefix is smaller
 SortWorst(cs) == SortSeq(cs, LAMBDA a, b : Worse(a, b))
